@@ -41,7 +41,10 @@ let run_dispatch toks =
       let bc = { bc_arch = X86_64; bc_nightly = (nightly = "1"); bc_std = true; bc_tf = [] } in
       let p = { o_avx512 = av land 1 <> 0; o_avx2 = av land 2 <> 0; o_fma = av land 4 <> 0; o_neon = false } in
       let su = { s_avx512 = s land 1 <> 0; s_avx2fma = s land 2 <> 0; s_avx2 = s land 4 <> 0; s_neon = s land 8 <> 0 } in
-      (match select_chain the_chain bc p su with
-       | Some SAvx512 -> "avx512" | Some SAvx2Fma -> "avx2fma" | Some SAvx2 -> "avx2" | Some SNeon -> "neon"
-       | Some SFallback -> "fallback" | None -> "none")
+      let show = function
+        | Some SAvx512 -> "avx512" | Some SAvx2Fma -> "avx2fma" | Some SAvx2 -> "avx2" | Some SNeon -> "neon"
+        | Some SFallback -> "fallback" | None -> "none" in
+      (* first token: the regenerated chain (the model of the macro); second: the SPECIFICATION (documented priority,
+         the guard each back end needs) *)
+      show (select_chain the_chain bc p su) ^ " " ^ show (select_spec bc p su)
   | _ -> "error bad-dispatch-case"
